@@ -23,6 +23,7 @@ pub fn def() -> PropDef {
         block: 1,
         flavours: &["tokio"],
         outcome: None,
+        extra_profiles: &["C01", "C02", "C03", "C04", "C07", "C11", "C13", "C16", "C17"],
     }
 }
 
@@ -112,7 +113,7 @@ pub fn check(v: &View) -> Vec<Violation> {
             .filter(|o| o.target == Some(aidx) && matches!(o.inner, Op::Send { .. }) && !o.skipped())
             .filter_map(|o| o.end.map(|e| (e, o)))
             .collect();
-        match spec.mailbox {
+        match spec.effective_mailbox() {
             Some(n) => {
                 // timer kinds by id (registered in started or in handlers)
                 let mut waiting_timer: BTreeSet<(u32, u32)> = BTreeSet::new();
@@ -137,10 +138,10 @@ pub fn check(v: &View) -> Vec<Violation> {
                                 }
                             }
                         }
-                        Ev::TimerSubmit { aidx: x, reg_inc, timer, n: k, .. } if *x == aidx && *k >= 1 => {
+                        Ev::TimerSubmit { aidx: x, inst, reg_inc, timer, n: k } if *x == aidx && *k >= 1 => {
                             // interval_with only asks for message k after send k-1 returned Ok
                             if waiting_timer.contains(&(*reg_inc, *timer)) {
-                                let key = (Cb::Tick.code(), tick_id(*reg_inc, *timer, *k - 1));
+                                let key = (Cb::Tick.code(), tick_id(*inst, *reg_inc, *timer, *k - 1));
                                 if !entered.contains(&key) {
                                     outstanding.insert(key);
                                 }
